@@ -30,7 +30,9 @@ import (
 	"github.com/cloudflare/circl/kem/mlkem/mlkem768"
 	"github.com/cloudflare/circl/math/mlsbset"
 	"github.com/cloudflare/circl/math/polynomial"
+	"github.com/cloudflare/circl/oprf"
 	"github.com/cloudflare/circl/secretsharing"
+	"github.com/cloudflare/circl/sign/bls"
 	"github.com/cloudflare/circl/sign/eddilithium2"
 	"github.com/cloudflare/circl/sign/eddilithium3"
 	tssrsa "github.com/cloudflare/circl/tss/rsa"
@@ -864,6 +866,48 @@ func scenarioFamily() *family {
 		var s1 ff.Scalar
 		if s1.UnmarshalBinary(keepS) == nil {
 			run.Violate("hist[scenarios].bls12381/ff.Scalar.UnmarshalBinary", "modifying-a-returned-value-changes-later-results", "after the caller modified the slice returned by ff.ScalarOrder(), the scalar r is accepted")
+		}
+	})
+	sc("bls/oprf.PrivateKey.Public()(overwrite-returned)", func(run *core.Run, imm uint64) {
+		r := core.NewPRNG(imm)
+		ikm1, ikm2 := r.Bytes(32), r.Bytes(32)
+		// BLS, both key groups
+		blsCase := func(name string, pubOf func(ikm []byte) (enc func() []byte, overwrite func(other []byte) error)) bool {
+			enc1, over1 := pubOf(ikm1)
+			enc2, _ := pubOf(ikm2)
+			b1, b2 := enc1(), enc2()
+			if err := over1(b2); err != nil {
+				return true
+			}
+			if again := enc1(); !bytes.Equal(again, b1) {
+				run.Violate("hist[scenarios]."+name, "modifying-a-returned-value-changes-later-results", "the holder of the object returned by the private key's public-key accessor decoded another key into it; the accessor now returns %x… instead of %x…", again[:8], b1[:8])
+				return false
+			}
+			return true
+		}
+		if !blsCase("bls[G1].PrivateKey.PublicKey", func(ikm []byte) (func() []byte, func([]byte) error) {
+			sk, err := bls.KeyGen[bls.G1](ikm, nil, nil)
+			must(err)
+			return func() []byte { b, _ := sk.PublicKey().MarshalBinary(); return b }, func(o []byte) error { return sk.PublicKey().UnmarshalBinary(o) }
+		}) {
+			return
+		}
+		if !blsCase("bls[G2].PrivateKey.PublicKey", func(ikm []byte) (func() []byte, func([]byte) error) {
+			sk, err := bls.KeyGen[bls.G2](ikm, nil, nil)
+			must(err)
+			return func() []byte { b, _ := sk.PublicKey().MarshalBinary(); return b }, func(o []byte) error { return sk.PublicKey().UnmarshalBinary(o) }
+		}) {
+			return
+		}
+		for _, su := range []oprf.Suite{oprf.SuiteRistretto255, oprf.SuiteP256, oprf.SuiteP384, oprf.SuiteP521} {
+			su := su
+			if !blsCase("oprf["+su.Identifier()+"].PrivateKey.Public", func(ikm []byte) (func() []byte, func([]byte) error) {
+				sk, err := oprf.DeriveKey(su, oprf.VerifiableMode, ikm, nil)
+				must(err)
+				return func() []byte { b, _ := sk.Public().MarshalBinary(); return b }, func(o []byte) error { return sk.Public().UnmarshalBinary(su, o) }
+			}) {
+				return
+			}
 		}
 	})
 	sc("mlsbset.Encode(short-k-with-spare-capacity)", func(run *core.Run, imm uint64) {
